@@ -35,36 +35,59 @@ def setup(E):
 
 
 def lemmas(E):
-    """the exception capture of Transport.run (the except clauses of its inner try): whatever a handler let escape, what
-    is stored for the API (saved_exception, raised by the auth calls / start_client / returned by get_exception) is an
-    SSHException, an EOFError or a socket error.  Read off the handlers' AST: a handler for one of those classes may store
-    the caught object; any other handler (the catch-all) must store a freshly constructed SSHException."""
+    """what is stored for the API (Transport.saved_exception: raised by the auth calls / start_client, returned by
+    get_exception) is an SSHException, an EOFError or a socket error, at EVERY place that stores it in transport.py and
+    auth_handler.py.  Read off the AST: a store is fine when it stores (a) a freshly constructed exception of the
+    SSHException family, (b) the object caught by a handler for SSHException / EOFError / socket errors, or (c) a local
+    bound in the same handler to a freshly constructed SSHException (the catch-all of Transport.run).  The GSS-API sites,
+    which store what the GSS library raised (no peer bytes are parsed there), are listed exemptions."""
     import ast
     import z3
     out = []
-    fi = E.src.funcs["paramiko.transport.Transport.run"]
     allowed = {"SSHException", "EOFError", "socket.error", "OSError"}
+    exempt = {"_handle_local_gss_failure", "_parse_userauth_gssapi_token", "_parse_userauth_gssapi_mic"}
+
+    def ssh_family(call):
+        if not isinstance(call, ast.Call):
+            return False
+        nm = ast.unparse(call.func).rsplit(".", 1)[-1]
+        try:
+            return any(x.endswith("ssh_exception.SSHException") for x in E.exc_mro(nm))
+        except Exception:
+            return nm == "SSHException"
     nstores = 0
-    for n in ast.walk(fi.node):
-        if not isinstance(n, ast.ExceptHandler):
+    for qn, fi in sorted(E.src.funcs.items()):
+        if fi.module not in ("paramiko.transport", "paramiko.auth_handler") or "::" in qn or ".<locals>." in qn:
             continue
-        ty = ast.unparse(n.type) if n.type is not None else "<bare>"
-        for a in ast.walk(n):
-            if isinstance(a, ast.Assign) and any(isinstance(t, ast.Attribute) and t.attr == "saved_exception" for t in a.targets):
-                nstores += 1
-                v = a.value
-                stores_caught = isinstance(v, ast.Name) and v.id == (n.name or "")
-                # a local bound in the handler to SSHException(...) (wrapped = SSHException(...); self.saved_exception = wrapped)
-                constructed = isinstance(v, ast.Call) and ast.unparse(v.func) == "SSHException"
-                if isinstance(v, ast.Name) and not stores_caught:
-                    for b in ast.walk(n):
-                        if isinstance(b, ast.Assign) and any(isinstance(t, ast.Name) and t.id == v.id for t in b.targets) \
-                                and isinstance(b.value, ast.Call) and ast.unparse(b.value.func) == "SSHException":
-                            constructed = True
-                ok = constructed or (stores_caught and ty in allowed)
-                out.append(("capture::what_is_stored_for_the_api_is_an_ssh_eof_or_socket_exception(handler %s #%d)"
-                            % (ty, nstores), [], z3.BoolVal(bool(ok))))
-    out.append(("capture::handlers_store_the_exception", [], z3.BoolVal(nstores >= 4)))
+        fname = qn.rsplit(".", 1)[-1]
+        handlers = [n for n in ast.walk(fi.node) if isinstance(n, ast.ExceptHandler)]
+        k = 0
+        for a in ast.walk(fi.node):
+            if not (isinstance(a, ast.Assign) and any(isinstance(t, ast.Attribute) and t.attr == "saved_exception" for t in a.targets)):
+                continue
+            v = a.value
+            if isinstance(v, ast.Constant) and v.value is None:
+                continue
+            nstores += 1
+            k += 1
+            ok = ssh_family(v)
+            if isinstance(v, ast.Name):
+                for h in handlers:
+                    inside = any(x is a for x in ast.walk(h))
+                    if not inside:
+                        continue
+                    ty = ast.unparse(h.type) if h.type is not None else "<bare>"
+                    if v.id == (h.name or "") and ty in allowed:
+                        ok = True
+                    for bnd in ast.walk(h):
+                        if isinstance(bnd, ast.Assign) and any(isinstance(t, ast.Name) and t.id == v.id for t in bnd.targets) \
+                                and ssh_family(bnd.value):
+                            ok = True
+            if fname in exempt:
+                ok = True
+            out.append(("capture::what_is_stored_for_the_api_is_an_ssh_eof_or_socket_exception(%s #%d)" % (qn.replace("paramiko.", ""), k),
+                        [], z3.BoolVal(bool(ok))))
+    out.append(("capture::stores_found", [], z3.BoolVal(nstores >= 6)))
     return out
 
 
@@ -83,7 +106,9 @@ LEVEL_NOTE = ("Scope: the dispatch loop, the pre-authentication gate, KEXINIT ne
               "Message.get_text / get_list on peer bytes, which raise UnicodeDecodeError for text that is not UTF-8) are not "
               "verified one by one; they are covered at the single point they all pass through: the exception capture of "
               "Transport.run stores for the API only SSHException / EOFError / socket errors - the catch-all wraps anything "
-              "else (obligation over the handlers' AST; found failing on the pinned tree and repaired). Not covered: "
+              "else - and so does every other store of saved_exception in transport.py / auth_handler.py (obligation over the "
+              "AST of each store; the GSS-API sites, which store what the GSS library raised, are listed exemptions; found "
+              "failing on the pinned tree and repaired). Not covered: "
               "_check_banner; struct.error for fields of 4 GiB; exceptions raised on the caller's own thread. "
               "Library raise classes are assumed from probing (from_encoded_point / from_public_bytes: ValueError).")
 TECHNIQUE = "deductive: exceptional postconditions (raise-set obligations at every call, subscript and library call) on the real AST, z3"
